@@ -886,7 +886,9 @@ func (m *machine) iterate0(i int, tx *mtxn, spec IterSpec) error {
 			pos++
 		}
 		// skip keys excluded from the comparison on the engine side
-		for it.Valid() && skip[string(it.Item().Entry().Key)] {
+		// keys excluded from the comparison, and the engine's own bookkeeping key
+		// (!NoKV!discard, reserved namespace), are stepped over on the engine side
+		for it.Valid() && (skip[string(it.Item().Entry().Key)] || eng.IsReserved(it.Item().Entry().Key)) {
 			it.Next()
 		}
 		wantValid := pos < len(exp)
